@@ -30,12 +30,18 @@ type C15Case struct {
 	AltAt     int `json:"alt_token_start_plus1,omitempty"`
 }
 
+// msgOffset returns the offset a message cites: the number that follows the first "offset" / "position" / "index" keyword
+// (messages may carry further text, e.g. a hint in parentheses, behind it).
+var reCitedOffset = regexp.MustCompile(`(?i)\b(?:offset|position|index|pos)\s*:?\s*(\d+)`)
+
 func msgOffset(msg string) int {
-	i := strings.LastIndex(msg, "at offset ")
-	if i < 0 {
+	var m []string
+	if u := reUnknown.FindStringSubmatch(msg); u != nil {
+		m = []string{"", u[2]} // the number behind the cited lexeme, not one inside it
+	} else if m = reCitedOffset.FindStringSubmatch(msg); m == nil {
 		return -1
 	}
-	n, err := strconv.Atoi(msg[i+len("at offset "):])
+	n, err := strconv.Atoi(m[1])
 	if err != nil {
 		return -1
 	}
